@@ -9,12 +9,20 @@
     completion event is queued) this gives [C09_no_stuck_waiting]: in a state where the event
     queue is empty and no job is with an executor, no job waits for resources.
 
+    No event is lost ([C09_no_lost_event], Proofs/JobQuiesce.v): in every reachable state each job that
+    has not ended is accounted for — its Exec / Done / Reject / Resolve event is in the queue, or it is
+    in the waiting list, or it is registered with the twin it collapsed into, or it is with an executor
+    or being evaluated.  With the deadlock-freedom statement this gives [C09_quiescent_all_settled]:
+    in a state where the event queue is empty and no job is with an executor or being evaluated,
+    EVERY job created has ended (settled with a value or an error; PDryStop in a dry run).
+
     NOT PROVED here (kept visible; reached by the correspondence run and the implementation's
-    quiescence oracle only): a termination measure for finite workflows (the number of events
-    processed is bounded by a function of the number of jobs created). *)
+    quiescence oracle only): a termination measure for the open machine (the number of events
+    processed is bounded by a function of the number of jobs created); for closed programs that
+    measure is Props/C09Tree.v. *)
 From Coq Require Import List ZArith Bool Arith Lia.
 From RV Require Import Model.JobMachine Proofs.JobBase Proofs.JobRes Proofs.JobRes3 Proofs.JobWake Proofs.JobWake2
-  Proofs.JobLive Proofs.JobLive4.
+  Proofs.JobLive Proofs.JobLive4 Proofs.JobDup2 Proofs.JobQuiesce.
 Import ListNotations.
 Open Scope list_scope.
 
@@ -96,6 +104,46 @@ Example C09_witness_fixed :
   waiting s = [] /\ exec_ids (queue s) = [3].
 Proof. vm_compute. split; reflexivity. Qed.
 
+(** No lost event: whatever its phase promises is really there. *)
+Theorem C09_no_lost_event : forall c ops j x,
+  pending_owner_safe (vr c) = true -> getj (run c ops) j = Some x ->
+  match jphase x with
+  | PQueued => In (EvExec j) (queue (run c ops))
+  | PCacheQ | PReported => In (EvDone j) (queue (run c ops)) \/ exists e, In (EvReject j e) (queue (run c ops))
+  | PEvalQ => (exists v, In (EvResolve j v) (queue (run c ops))) \/ exists e, In (EvReject j e) (queue (run c ops))
+  | PWaiting => In j (waiting (run c ops))
+  | PCollapsed t => In (t, j) (subs (run c ops))
+  | _ => True
+  end.
+Proof.
+  intros c ops j x Hs Hx. apply (R_run c Hs ops j x Hx). discriminate.
+Qed.
+
+(** Quiescent => every job created has ended. *)
+Theorem C09_quiescent_all_settled : forall c ops,
+  release_if_holds (vr c) = true -> recheck_on_skip (vr c) = true -> pending_owner_safe (vr c) = true ->
+  dryrun c = false -> (forall r, (0 <= limit_of c r)%Z) ->
+  Forall wf_op ops -> Forall (feas_op c) ops ->
+  queue (run c ops) = [] ->
+  (forall j x, getj (run c ops) j = Some x -> jphase x <> PSubmitted /\ jphase x <> PEvaluating) ->
+  forall j x, getj (run c ops) j = Some x -> ended x.
+Proof.
+  intros c ops H1 H2 H3 H4 H5 H6 H7 Hq Hrun.
+  apply (quiescent_all_ended c H3 ops Hq); [|exact Hrun].
+  apply (C09_no_stuck_waiting c ops H1 H2 H4 H5 H6 H7 Hq). intros j x Hx. apply (Hrun j x Hx).
+Qed.
+
+(** Non-vacuity: the repaired witness schedule, run to quiescence, meets every premise and has 4 settled jobs. *)
+Definition c09_full : list op :=
+  c09_witness ++ [ OPop 0 3 CMiss; OComplete 3 true 0%Z; OPop 1 3 CMiss; OEval 3 (Ok 1%Z); OPop 3 3 CMiss ].
+Example C09_quiescent_nonvacuous :
+  let s := run (c09_cfg all_fixed) c09_full in
+  queue s = [] /\ length (jobs s) = 4 /\
+  forallb (fun x => match jphase x with PSettled _ => true | _ => false end) (jobs s) = true.
+Proof. vm_compute. repeat split; reflexivity. Qed.
+
+Print Assumptions C09_no_lost_event.
+Print Assumptions C09_quiescent_all_settled.
 Print Assumptions C09_waiting_has_waker_partial.
 Print Assumptions C09_no_stuck_waiting.
 Print Assumptions C09_refuted_without_recheck.
